@@ -111,6 +111,9 @@ def cases(tier: str, seed: int) -> list[dict]:
             if ll in ("1d", "2d") and bits in (0, 1, 3):    # CF coordinates marked in the other allowed ways
                 for variant in (1, 2):
                     out.append({"src": "vec", "init": [c], "events": [dict(e) for e in ev], "variant": variant})
+            if bits & 2 and bits & 1:                        # the (j, i) dimensions brought about in the other ways
+                for variant in (1, 2):
+                    out.append({"src": "vec", "init": [c], "events": [dict(e) for e in ev], "variant": variant})
             if bits & 16 and not bits & 32:      # a mesh variable that is not a 2-D mesh: every way of writing that
                 for variant in (1, 2):
                     out.append({"src": "vec", "init": [c], "events": [dict(e) for e in ev], "variant": variant})
@@ -162,8 +165,16 @@ def build_dataset(idx: int, variant: int = 0) -> xarray.Dataset:
     elif f["ll"] == "mixed":
         dv["lat"] = xarray.DataArray(z(2), dims=["y"], attrs={"units": "degrees_north"})
         dv["lon"] = xarray.DataArray(z((2, 3)), dims=["y", "x"], attrs={"units": "degrees_east"})
+    coords = {}
     if f["ji"]:
-        dv["dummy_ji"] = xarray.DataArray(z((2, 2)), dims=["j", "i"])
+        # the (j, i) dimensions are there - however they come about: a 2-D variable, a variable with a further dimension, or
+        # only a coordinate variable
+        if variant % 3 == 1:
+            dv["dummy_ji"] = xarray.DataArray(z((2, 2, 2)), dims=["record", "j", "i"])
+        elif variant % 3 == 2:
+            coords["dummy_ji"] = xarray.DataArray(z((2, 2)), dims=["j", "i"])
+        else:
+            dv["dummy_ji"] = xarray.DataArray(z((2, 2)), dims=["j", "i"])
     if f["std8"]:
         for n in ("y_centre", "x_centre", "y_left", "x_left", "y_back", "x_back", "y_grid", "x_grid"):
             dv[n] = xarray.DataArray(z((2, 2)), dims=["a_" + n[2:], "b_" + n[2:]])
@@ -177,7 +188,7 @@ def build_dataset(idx: int, variant: int = 0) -> xarray.Dataset:
             attrs["topology_dimension"] = 3
         # variant 1: the attribute is missing altogether
         dv["Mesh"] = xarray.DataArray(numpy.int32(0), attrs=attrs)
-    ds = xarray.Dataset(dv)
+    ds = xarray.Dataset(dv, coords=coords)
     if f["ems"]:
         ds.attrs["ems_version"] = "v1"
     if f["ugconv"]:
